@@ -699,6 +699,127 @@ def D_param_counter(s, ctx):
     return None
 
 
+_UW = {"u8": 8, "u16": 16, "u32": 32, "u64": 64, "usize": 64}
+
+
+def _interval(b, l, at_bb, depth=0):
+    """[lo, hi] of unsigned local l at block at_bb, from dominating comparison / switch edges on l (or on a local it
+    was copied from) against constants, and through `y +- const` definitions; None if unknown."""
+    ty = b.local_ty(l)
+    if ty not in _UW:
+        return None
+    lo, hi = 0, (1 << _UW[ty]) - 1
+    root = through_copies(b, l)
+    xs = copies(b, root) | {root, l}
+    # x = y - k / y + k (checked): shift y's interval
+    d = def_of(b, root)
+    if d and d[0] == "rv" and d[3]["k"] == "use" and op_place_key(d[3]["op"]) and op_place_key(d[3]["op"])[1] == ("f0",) \
+            and depth < 3:
+        tl = op_place_key(d[3]["op"])[0]
+        dd = def_of(b, tl)
+        if dd and dd[0] == "rv" and dd[3]["k"] == "binop" and dd[3]["op"] in ("AddWithOverflow", "SubWithOverflow") \
+                and dd[3]["b"].get("k") == "const" and op_local(dd[3]["a"]) is not None:
+            inner = _interval(b, op_local(dd[3]["a"]), dd[1], depth + 1)
+            k = dd[3]["b"]["int"]
+            if inner:
+                if dd[3]["op"].startswith("Add"):
+                    lo, hi = max(lo, inner[0] + k), min(hi, inner[1] + k)
+                else:
+                    lo, hi = max(lo, inner[0] - k), min(hi, inner[1] - k)
+    src_key = None
+    d0 = def_of(b, root)
+    if d0 and d0[0] == "rv" and d0[3]["k"] == "use" and d0[3]["op"].get("k") in ("copy", "move") and d0[3]["op"]["place"]["p"]:
+        src_key = op_place_key(d0[3]["op"])
+    for i in range(b.n):
+        t = b.term(i)
+        if t["k"] != "switch" or b.blocks[i]["cleanup"]:
+            continue
+        dl = op_local(t["discr"])
+        # (1) switch on the integer itself (a local, or the very place the local was copied from)
+        if dl is None and src_key is not None and op_place_key(t["discr"]) == src_key:
+            dl = root
+        if dl is None:
+            continue
+        if dl in xs or through_copies(b, dl) in xs:
+            vals = [v for v, _ in t["arms"]]
+            for v, tg in t["arms"]:
+                if b.edge_dominates((i, tg), at_bb) and tg != t["otherwise"]:
+                    lo, hi = max(lo, v), min(hi, v)
+            if b.edge_dominates((i, t["otherwise"]), at_bb) and t["otherwise"] not in [tg for _, tg in t["arms"]]:
+                if 0 in vals:
+                    lo = max(lo, 1)
+            continue
+        # (2) switch on a bool computed by comparing with a constant
+        if b.local_ty(dl) != "bool":
+            continue
+        dd = def_of(b, through_copies(b, dl))
+        if not (dd and dd[0] == "rv" and dd[3]["k"] == "binop"):
+            continue
+        rv = dd[3]
+        ft = [tg for v, tg in t["arms"] if v == 0]
+        if len(t["arms"]) != 1 or not ft:
+            continue
+        tt, ff = t["otherwise"], ft[0]
+        a, c = rv["a"], rv["b"]
+        la, lc = op_local(a), op_local(c)
+        ia = a.get("int") if a.get("k") == "const" else None
+        ic = c.get("int") if c.get("k") == "const" else None
+        xin = lambda q: q is not None and (q in xs or through_copies(b, q) in xs)
+        for edge, truth in (((i, tt), True), ((i, ff), False)):
+            if not b.edge_dominates(edge, at_bb):
+                continue
+            op = rv["op"]
+            if xin(la) and ic is not None:          # x op c
+                rel = op if truth else {"Lt": "Ge", "Le": "Gt", "Gt": "Le", "Ge": "Lt", "Eq": "Ne", "Ne": "Eq"}.get(op)
+                k = ic
+            elif xin(lc) and ia is not None:        # c op x  ==  x op' c
+                flip = {"Lt": "Gt", "Le": "Ge", "Gt": "Lt", "Ge": "Le", "Eq": "Eq", "Ne": "Ne"}.get(op)
+                rel = flip if truth else {"Lt": "Ge", "Le": "Gt", "Gt": "Le", "Ge": "Lt", "Eq": "Ne", "Ne": "Eq"}.get(flip)
+                k = ia
+            else:
+                continue
+            if rel == "Lt":
+                hi = min(hi, k - 1)
+            elif rel == "Le":
+                hi = min(hi, k)
+            elif rel == "Gt":
+                lo = max(lo, k + 1)
+            elif rel == "Ge":
+                lo = max(lo, k)
+            elif rel == "Eq":
+                lo, hi = max(lo, k), min(hi, k)
+            elif rel == "Ne" and k == 0:
+                lo = max(lo, 1)
+    return (lo, hi) if lo <= hi else None
+
+
+def D_interval(s, ctx):
+    """`x + k` / `x - k` on an unsigned integer whose range, established by dominating comparisons with constants
+    (match arms with ranges, `if x < N`), makes the operation safe."""
+    if s.kind not in ("assert:overflow:Add", "assert:overflow:Sub"):
+        return None
+    rv = overflow_binop(s)
+    if not rv or rv["b"].get("k") != "const":
+        return None
+    l = op_local(rv["a"])
+    if l is None:
+        return None
+    b = s.body
+    ty = b.local_ty(l)
+    iv = _interval(b, l, s.bb)
+    if iv is None or ty not in _UW:
+        return None
+    k = rv["b"]["int"]
+    lo, hi = iv
+    if rv["op"].startswith("Sub") and lo - k >= 0:
+        return "operand in [%d, %d] on every path here (dominating comparisons), so `- %d` cannot underflow" % (lo, hi, k)
+    if rv["op"].startswith("Add") and hi + k <= (1 << _UW[ty]) - 1 and hi < (1 << _UW[ty]) - 1:
+        if (lo, hi) != (0, (1 << _UW[ty]) - 1):
+            return "operand in [%d, %d] on every path here (dominating comparisons), so `+ %d` cannot overflow %s" % (
+                lo, hi, k, ty)
+    return None
+
+
 def D_index_find(s, ctx):
     """str slicing at an offset returned by find() of an ASCII pattern on the same string, or after starts_with."""
     if s.kind != "call:index":
@@ -956,7 +1077,7 @@ def D_div_zero_guard(s, ctx):
     return None
 
 
-DISCHARGERS = [D_ubcheck, D_counter, D_param_counter, D_depth, D_len_plus, D_find_plus, D_sub_guard, D_sub_nonempty, D_countdown,
+DISCHARGERS = [D_ubcheck, D_counter, D_param_counter, D_depth, D_interval, D_len_plus, D_find_plus, D_sub_guard, D_sub_nonempty, D_countdown,
                D_caller_nonzero, D_byte_domain, D_constant, D_index_find, D_unwrap_some, D_borrow, D_const_index,
                D_capacity, D_fmt, D_div_zero_guard]
 
